@@ -122,6 +122,26 @@ def select__if_expression(self: XPathToken, context: ta.ContextType = None) \
         yield from self[2].select(context)
 
 
+def iter_free_references(token: XPathToken, name: str) -> Iterator[XPathToken]:
+    """
+    Iterates the references to variable *name* that are not bound by a for, let or
+    quantified expression nested in *token*.
+    """
+    if token.symbol == '$':
+        if token and token[0].value == name:
+            yield token
+    elif token.symbol in ('for', 'let', 'some', 'every') and len(token) >= 3 \
+            and token[0].symbol == '$':
+        for k in range(0, len(token) - 1, 2):
+            yield from iter_free_references(token[k + 1], name)
+            if token[k][0].value == name:
+                return  # what follows is in the scope of the nested binding
+        yield from iter_free_references(token[-1], name)
+    else:
+        for child in token:
+            yield from iter_free_references(child, name)
+
+
 ###
 # Quantified expressions
 @method('some', bp=20, label='expression')
@@ -138,9 +158,8 @@ def nud__quantified_expressions(self: XPathToken) -> XPathToken:
         self.parser.advance('in')
         expr = self.parser.expression(5)
         self.append(expr)
-        for tk in filter(lambda x: x.symbol == '$', expr.iter()):
-            if tk[0].value == variable[0].value:
-                raise tk.error('XPST0008', 'loop variable in its range expression')
+        for tk in iter_free_references(expr, cast(str, variable[0].value)):
+            raise tk.error('XPST0008', 'loop variable in its range expression')
 
         if self.parser.next_token.symbol != ',':
             break
@@ -190,9 +209,8 @@ def nud__for_expression(self: XPathToken) -> XPathToken:
         self.parser.advance('in')
         expr = self.parser.expression(5)
         self.append(expr)
-        for tk in filter(lambda x: x.symbol == '$', expr.iter()):
-            if tk[0].value == variable[0].value:
-                raise tk.error('XPST0008', 'loop variable in its range expression')
+        for tk in iter_free_references(expr, cast(str, variable[0].value)):
+            raise tk.error('XPST0008', 'loop variable in its range expression')
 
         if self.parser.next_token.symbol != ',':
             break
